@@ -1319,10 +1319,83 @@ def _ser_delimited_copy(s):
             "header": BITSVAL(w._buffer, o._bit_offset, HDR_W(s.schema), unfold=False) == LSB(LEN(s.seq), HDR_W(s.schema))}
 
 
+def _iteration_calls(s, key):
+    """The calls logged during the arbitrary iteration that has just been executed, as (index term of that iteration, log
+    entries) - only when the invariant is being evaluated at the END of that iteration (the obligation side); None when it is
+    evaluated where it is assumed (initiation, start of the arbitrary iteration, loop exit), so that nothing about calls is
+    ever assumed.  SMT reading only."""
+    if not smt():
+        return None
+    d = s.ctx.__dict__
+    mark = d.get(key)
+    d[key] = (s.i, len(s.ctx.call_log))
+    if mark is None:
+        return None
+    i0, n0 = mark
+    si = s.i
+    if z3.is_expr(si) and z3.is_expr(i0) and z3.is_add(si) and si.num_args() == 2 and si.arg(0).eq(i0) \
+            and z3.is_int_value(si.arg(1)) and si.arg(1).as_long() == 1:
+        return i0, list(s.ctx.call_log[n0:])
+    return None
+
+
+def _struct_field_protocol(s):
+    """Statement: every field is encoded exactly once, in order, from the value given for it - or, when the dict omits it,
+    from the default (zero / empty / first variant) VALUE of its type, encoded like any other value.  Per iteration of the
+    structure loop: a padding field makes no call of the field serializer; any other field makes exactly one, for the
+    field's own type, with obj[name] if the dict has the name, else with what _default_value(field type) returned."""
+    r = _iteration_calls(s, "c06_struct_iter_mark")
+    if r is None:
+        return {}
+    i0, calls = r
+    sers = [e for e in calls if e["callee"].endswith("_serialize_field_value")]
+    defs = [e for e in calls if e["callee"].endswith("._default_value")]
+    f = AT(FIELDS(s.schema), i0)
+    is_pad = ISINST(f, "PaddingField")
+    out = {}
+    if not sers:
+        out["field-encoded-once"] = is_pad  # no call of the field serializer: only right for a padding field
+        return out
+    out["field-encoded-once"] = AND(NOT(is_pad), len(sers) == 1)
+    c = sers[0]["ns"]
+    out["field-encoded-by-own-type"] = _same_ref(c.field_type, f._data_type)
+    out["field-encoded-to-this-writer"] = _same_ref(c.writer, s.writer)
+    has = dm.has_f(s.obj.term, V_Str(FNAME(f)))
+    given = dm.get_f(s.obj.term, V_Str(FNAME(f)))
+    vt = c.value.term if isinstance(c.value, DynV) else None
+    if vt is None:
+        out["field-value-or-default"] = False
+        return out
+    if defs:
+        dres = defs[-1]["result"]
+        dt = dres.term if isinstance(dres, DynV) else None
+        out["default-of-own-type"] = AND(len(defs) == 1, _same_ref(defs[-1]["ns"].schema, f._data_type))
+        out["field-value-or-default"] = AND(z3.Not(has), dt is not None and vt.eq(dt)) if dt is not None else False
+    else:
+        out["field-value-or-default"] = z3.And(has, vt == given)
+    return out
+
+
+def _same_ref(a, b):
+    """object identity of two engine objects (no __eq__ of the repository is involved)"""
+    if a is b:
+        return True
+    return a.ref == b.ref
+
+
+def V_Str(x):
+    from pyvc import values as _V
+    return _V.Str.unwrap(x)
+
+
 @loop_invariant(SD + "_serialize_composite", loop=3)
 def _ser_struct_fields(s):
     o, w = s.old.writer, s.writer
     ft = FIELD_TYPES(s.schema)
+    return dict(_ser_struct_fields_layout(s, o, w, ft), **_struct_field_protocol(s))
+
+
+def _ser_struct_fields_layout(s, o, w, ft):
     return {"prefix": PREFIX_PRESERVED(w._buffer, o._buffer, o._bit_offset),
             "forward": w._bit_offset >= o._bit_offset,
             "hint": AND(H_PAD(w._bit_offset - o._bit_offset),
@@ -1992,6 +2065,17 @@ def _bounded_codec(eng, tier, seed):
                 if serialize(t, back, with_delimiter_header=hdr) != b or (not flt and back != v):
                     bad("round-trip", "deserialize(serialize(v)) differs", {"type": td, "value": repr(v), "back": repr(back)})
                 stats["round_trips"] += 1
+                # an omitted structure field is encoded as the default VALUE of its type (independent oracle NATIVE_DEFAULT)
+                st_t = t.inner_type if isinstance(t, S.DelimitedType) else t
+                if isinstance(st_t, S.StructureType) and isinstance(v, dict) and v:
+                    k_ = rng.choice(sorted(v.keys()))
+                    f_ = [f for f in st_t.fields_except_padding if f.name == k_][0]
+                    v_omit = {a: b_ for a, b_ in v.items() if a != k_}
+                    v_dflt = dict(v, **{k_: NATIVE_DEFAULT(f_.data_type)})
+                    stats["omitted_field_checks"] = stats.get("omitted_field_checks", 0) + 1
+                    if serialize(t, v_omit, with_delimiter_header=hdr) != serialize(t, v_dflt, with_delimiter_header=hdr):
+                        bad("omitted-field-is-default-value", "an omitted field is not encoded like its zero / empty / first-variant value",
+                            {"type": td, "value": repr(v_omit), "omitted": k_})
                 if not hdr:
                     junk = bytes(rng.randrange(256) for _ in range(rng.choice([1, 3, 8])))
                     if repr(deserialize(t, b + junk)) != repr(back) or repr(deserialize(t, b + bytes(5))) != repr(back):
